@@ -189,7 +189,7 @@ func TestVerifRedisAPI(t *testing.T) {
 	maxLen := report.ParamInt("MAXLEN", 4)
 	ops := []string{"get", "store", "store-nx", "close", "get-other-key"}
 	rep.Rule = fmt.Sprintf("real RedisCache (rueidis client) against a harness-made RESP2 server on loopback, marked connected (the state after the first ping); every sequence of length <=%d over %v, then Close twice; "+
-		"oracle: no operation panics in any state (a store after Close is what a request still in flight does when the router is closed), Close returns and is idempotent, a Get that returns a value returns the value last stored under that key with its timestamps (whole seconds)", maxLen, ops)
+		"oracle: no operation panics in any state (a store after Close is what a request still in flight does when the router is closed), Close returns and is idempotent, a Get that returns a value returns a value that was stored under that key (stores are asynchronous: not necessarily the latest), unchanged, with its timestamps (whole seconds)", maxLen, ops)
 	rd, err := newVRedis()
 	if err != nil {
 		t.Fatal(err)
@@ -220,6 +220,16 @@ func TestVerifRedisAPI(t *testing.T) {
 		key := []byte(fmt.Sprintf("k-%d", idx))
 		other := []byte(fmt.Sprintf("other-%d", idx))
 		var stored []byte
+		// (stores are asynchronous: a Get may see any of the values stored under the key so far, not necessarily the latest)
+		var allStored [][]byte
+		wasStored := func(v []byte) bool {
+			for _, x := range allStored {
+				if bytes.Equal(x, v) {
+					return true
+				}
+			}
+			return false
+		}
 		now := time.Now()
 		closed := false
 		step := func(name string, f func()) (ok bool) {
@@ -255,7 +265,7 @@ func TestVerifRedisAPI(t *testing.T) {
 				if v != nil && !closed {
 					if ops[o] == "get-other-key" {
 						rep.Violate("C07:redis-api:value-of-another-key", fmt.Sprintf("Get of a key that was never stored returned %q in %s", v, desc), nil)
-					} else if stored == nil || !bytes.Equal(v, stored) || st.Unix() != now.Unix() || ex.Unix() != now.Add(5*time.Second).Unix() {
+					} else if !wasStored(v) || st.Unix() != now.Unix() || ex.Unix() != now.Add(5*time.Second).Unix() {
 						rep.Violate("C07:redis-api:value-changed", fmt.Sprintf("Get returned %q (%v..%v), stored %q (%v..%v) in %s", v, st.Unix(), ex.Unix(), stored, now.Unix(), now.Add(5*time.Second).Unix(), desc), nil)
 					}
 				}
@@ -264,7 +274,8 @@ func TestVerifRedisAPI(t *testing.T) {
 				if !step("AsyncStore", func() { c.AsyncStore(key, now, now.Add(5*time.Second), v, ops[o] == "store-nx") }) {
 					return
 				}
-				if !closed && (stored == nil || ops[o] == "store") {
+				if !closed {
+					allStored = append(allStored, v)
 					stored = v
 				}
 				time.Sleep(15 * time.Millisecond) // let the set loop send it
